@@ -382,7 +382,7 @@ func (w *World) oracleC02Create(m *simkube.Mutation, ip string, oldF, newF *FipI
 			if pp := w.podByUID[uid]; pp == nil || w.gone[uid] || pp.finished() {
 				continue
 			}
-			if fw := w.M.filterWin[uid]; fw != nil && fw.closed && fw.gateClosed {
+			if fw := w.M.filterWin[uid]; fw != nil && fw.closed && fw.gateClosed && !fw.heldOwn {
 				w.fail("C02.fresh-ip-while-app-holds-replicas-ips", "fresh-ip-while-app-holds-replicas-ips",
 					"pod %q got fresh IP %s (by %s) although throughout its last filter call (steps %d..) the pods of deployment %s/%s held at least as many IPs as it has replicas",
 					newF.Key, ip, m.By.Name, fw.start, id.App.NS, id.App.Name)
@@ -407,7 +407,7 @@ func (w *World) oracleC02Create(m *simkube.Mutation, ip string, oldF, newF *FipI
 					w.S.Stat("c02.taken-ip-back-in-reserve-at-fresh-create")
 				}
 			}
-			if fw := w.M.filterWin[uid]; fw != nil && fw.closed && ((fw.hadReserve && !fw.tookReserved) || backInReserve) {
+			if fw := w.M.filterWin[uid]; fw != nil && fw.closed && ((fw.hadReserve && !fw.tookReserved && !fw.heldOwn) || backInReserve) {
 				w.fail("C02.fresh-instead-of-reserved", "fresh-instead-of-reserved",
 					"pod %q got fresh IP %s (by %s) although its app held an unowned reserved IP under %q throughout its last filter call (steps %d..)",
 					newF.Key, ip, m.By.Name, id.App.poolPrefix(), fw.start)
@@ -422,7 +422,8 @@ func (w *World) openFilterWindow(p *PodInfo) {
 	if p.App == nil {
 		return
 	}
-	w.M.filterWin[p.UID] = &filterWindow{app: p.App, hadReserve: w.unownedUnderPrefix(p.App.poolPrefix()) > 0, start: w.S.Steps, gateClosed: w.gateClosed(p.App)}
+	w.M.filterWin[p.UID] = &filterWindow{app: p.App, hadReserve: w.unownedUnderPrefix(p.App.poolPrefix()) > 0, start: w.S.Steps, gateClosed: w.gateClosed(p.App), maxReplicas: w.replicasNow(p.App),
+		heldOwn: len(w.storeIPsOfKey(p.Key)) > 0}
 }
 
 // trackFilterWindows is called on every FloatingIP mutation.
@@ -432,8 +433,14 @@ func (w *World) trackFilterWindows() {
 		if !fw.closed && fw.hadReserve && w.unownedUnderPrefix(fw.app.poolPrefix()) == 0 {
 			fw.hadReserve = false
 		}
-		if !fw.closed && fw.gateClosed && !w.gateClosed(fw.app) {
-			fw.gateClosed = false
+		if !fw.closed {
+			closed, r := w.gateClosedFloor(fw.app, fw.maxReplicas)
+			if r > fw.maxReplicas {
+				fw.maxReplicas = r
+			}
+			if fw.gateClosed && !closed {
+				fw.gateClosed = false
+			}
 		}
 	}
 }
@@ -738,13 +745,21 @@ func (w *World) identityEverHadRanges(key string) bool {
 // gateClosed: the pods of a deployment with a reserving policy hold at least as many IPs as the deployment has
 // replicas (API truth or lister view, whichever is larger), and no Pool size is in play.
 func (w *World) gateClosed(a *App) bool {
+	closed, _ := w.gateClosedFloor(a, 0)
+	return closed
+}
+
+// gateClosedFloor judges the gate against the larger of the replica count now (API truth or lister view) and floor, the
+// largest count seen earlier in the same filter call: galaxy reads the replica count once, at the start of its filter
+// call, and may decide on that value much later. It also returns the replica count it used.
+func (w *World) gateClosedFloor(a *App, floor int) (bool, int) {
 	if a == nil || a.Kind != "dp" || a.effPolicy() == "" {
-		return false
+		return false, 0
 	}
 	own := a.poolPrefix()
 	if a.Pool != "" {
 		if w.K.Get("pools", "kube-system", a.Pool) != nil || w.K.ViewGet("pools", "kube-system", a.Pool) != nil {
-			return false // sized pool: C07's business
+			return false, 0 // sized pool: C07's business
 		}
 		own = "pool__" + a.Pool + "_dp_" + a.NS + "_" + a.Name + "_"
 	}
@@ -769,5 +784,14 @@ func (w *World) gateClosed(a *App) bool {
 			replicas = d.Spec.Replicas
 		}
 	}
-	return replicas > 0 && used >= replicas
+	if floor > replicas {
+		replicas = floor
+	}
+	return replicas > 0 && used >= replicas, replicas
+}
+
+// replicasNow: the deployment's replica count as galaxy may read it now (API truth or lister view, whichever is larger).
+func (w *World) replicasNow(a *App) int {
+	_, r := w.gateClosedFloor(a, 0)
+	return r
 }
